@@ -6,6 +6,7 @@
               elements_iterate, required_len  (transliterated Rust); to_opt, compact,
               canonical, element_ok; traces = list of (yielded item, rest() afterwards).
    All statements quantify over element lists / byte areas of ANY length. *)
+From EP Require Parse.ConstsAllOk.   (* every numeric `pub const` of the crate, regenerated from the source on every run, has its RFC / IANA value *)
 From EP Require Import Base.Bytes TcpOpt.Spec TcpOpt.Model TcpOpt.Proofs.
 Local Open Scope N_scope.
 
